@@ -294,6 +294,15 @@ func NewChain(w *World, o AppOpts, monitors ...Monitor) *Chain {
 	c.valsets[2] = vs
 	c.Time = w.Cfg.GenesisTime
 	c.ExtensionFor = HonestExtension
+	if w.Cfg.Keyless {
+		empty, _ := json.Marshal(app.BridgeVoteExtension{})
+		c.ExtensionFor = func(c *Chain, ctx sdk.Context, v *ValKeys) []byte {
+			if w.Cfg.KeyedVal < len(c.W.Vals) && c.W.Vals[w.Cfg.KeyedVal] == v {
+				return HonestExtension(c, ctx, v)
+			}
+			return empty
+		}
+	}
 	return c
 }
 
